@@ -34,7 +34,9 @@ var c01Corruptions = []string{"none", "flip", "trunc1", "trunchalf", "trunc0", "
 	"hashother", "hash-short", "hash-upper", "hash-nonhex",
 	"z-wrongmagic", "z-trunc1", "z-trunchalf", "z-corrupt", "z-garbage-after", "z-second-frame", "z-multiframe", "z-empty-frame-after", "z-skippable-before",
 	"bad-compressor", "abort-cancel", "abort-noFinish", "abort-tcpclose",
-	"splice-missing-chunk", "splice-reordered", "splice-sizes-not-summing"}
+	"splice-missing-chunk", "splice-reordered", "splice-sizes-not-summing",
+	// the claimed HASH is already stored (with its true size n) when the bad upload arrives; the claim states another size
+	"pre:size+1", "pre:size-1", "pre:ext1+size", "pre:trunc1+size"}
 
 func c01IsZstdPath(p string) bool { return strings.HasSuffix(p, "zstd") }
 
@@ -51,6 +53,14 @@ func c01Applicable(path, corr string) bool {
 		return strings.HasPrefix(path, "http-put")
 	case strings.HasPrefix(corr, "splice-"):
 		return path == "splice" || path == "splice-nodigest" && corr == "splice-missing-chunk"
+	case strings.HasPrefix(corr, "pre:"):
+		switch path {
+		case "fetchblob", "fetchblob-nolen", "splice-nodigest":
+			return false // no declared size on these paths
+		case "splice":
+			return corr == "pre:size+1" || corr == "pre:size-1"
+		}
+		return true
 	}
 	switch path {
 	case "splice":
@@ -92,6 +102,7 @@ type c01Result struct {
 	answeredHash string
 	answeredSize int64
 	noProbe      bool // malformed hash: probes are not expressible
+	pre          bool // the claimed hash was stored beforehand with its true size
 }
 
 type c01Env struct {
@@ -199,10 +210,28 @@ func (e *c01Env) runCase(cs c01Case) c01Result {
 	ctx, cancel := lib.Ctx()
 	defer cancel()
 
+	if strings.HasPrefix(cs.Corr, "pre:") {
+		if cs.Size < 32 {
+			return c01Result{skip: true}
+		}
+		if err := srv.Cache.Put(ctx, cache.CAS, res.hash, res.size, bytes.NewReader(B)); err != nil {
+			return c01Result{skip: true}
+		}
+		res.pre = true
+	}
 	// 1. declared digest corruptions
 	switch cs.Corr {
-	case "size+1":
+	case "pre:ext1+size":
 		res.size++
+		res.valid = false
+	case "pre:trunc1+size":
+		res.size--
+		res.valid = false
+	case "size+1", "pre:size+1":
+		res.size++
+		res.valid = false
+	case "pre:size-1":
+		res.size--
 		res.valid = false
 	case "size-1":
 		if res.size < 2 {
@@ -234,6 +263,12 @@ func (e *c01Env) runCase(cs c01Case) c01Result {
 	}
 	// 2. logical data corruptions
 	data := B
+	switch cs.Corr {
+	case "pre:ext1+size":
+		data, _ = corruptData(rng, B, "ext1")
+	case "pre:trunc1+size":
+		data, _ = corruptData(rng, B, "trunc1")
+	}
 	switch cs.Corr {
 	case "flip", "trunc1", "trunchalf", "trunc0", "ext1", "extbig":
 		var ok bool
@@ -520,7 +555,7 @@ type c01After struct {
 
 func (e *c01Env) judge(cs c01Case, res c01Result, B []byte) {
 	r := e.r
-	if !res.noProbe && cs.Size >= 16 && !res.weak {
+	if !res.noProbe && cs.Size >= 16 && !res.weak && !res.pre {
 		e.omu.Lock()
 		if len(e.after) < 4000 {
 			keep := B
@@ -549,6 +584,37 @@ func (e *c01Env) judge(cs c01Case, res c01Result, B []byte) {
 		r.Violation(key+":answered-digest-wrong", fmt.Sprintf("server answered digest (%s,%d) for content with digest (%s,%d)", res.answeredHash, res.answeredSize, lib.Sha256Hex(B), len(B)), detail)
 	}
 	if res.noProbe {
+		return
+	}
+	if res.pre {
+		// the claimed digest (h, declared size) must not have become present, and the blob stored before under
+		// (h, n) must be untouched. HEAD/GET of /cas/h carry no size and answer for the stored blob, so the claim
+		// is probed through the size-stating paths only.
+		ctx, cancel := lib.Ctx()
+		defer cancel()
+		miss, err := e.srv.FindMissing(ctx, &pb.Digest{Hash: res.hash, SizeBytes: res.size}, lib.DigestOf(B))
+		_, rerr := e.srv.BSRead(ctx, lib.ResBlobs(res.hash, res.size), 0, 0)
+		get := e.srv.HTTPGet("/cas/"+res.hash, nil)
+		detail["probe"] = map[string]any{"findmissing": fmt.Sprint(miss), "findmissing_err": fmt.Sprint(err), "bsread_claimed_err": fmt.Sprint(rerr), "get": get.Status}
+		claimedMissing, trueMissing := false, false
+		for _, d := range miss {
+			if d.GetHash() == res.hash && d.GetSizeBytes() == res.size {
+				claimedMissing = true
+			}
+			if d.GetHash() == res.hash && d.GetSizeBytes() == int64(len(B)) {
+				trueMissing = true
+			}
+		}
+		r.Count("pre." + cs.Path + "." + cs.Corr)
+		if err == nil && !claimedMissing {
+			r.Violation(key+":claimed-digest-present", fmt.Sprintf("bad upload (%s) claiming (%s,%d) while (%s,%d) is stored: FindMissingBlobs now reports the claimed digest present", res.status, res.hash, res.size, res.hash, len(B)), detail)
+		}
+		if rerr == nil {
+			r.Violation(key+":claimed-digest-readable", fmt.Sprintf("bad upload (%s) claiming (%s,%d): ByteStream.Read of the claimed digest succeeds", res.status, res.hash, res.size), detail)
+		}
+		if err == nil && trueMissing || get.Status != 200 || !bytes.Equal(get.Body, B) {
+			r.Violation(key+":stored-blob-damaged", fmt.Sprintf("bad upload (%s) claiming (%s,%d) damaged the blob stored under (%s,%d): findmissing=%v get=%d (%d bytes)", res.status, res.hash, res.size, res.hash, len(B), trueMissing, get.Status, len(get.Body)), detail)
+		}
 		return
 	}
 	// post-state probe of the claimed digest through three independent read paths
